@@ -21,6 +21,23 @@
 (* Every event also carries the projection of the retained SOURCE of the   *)
 (* last copy() / reverse_copy() / pickle round trip (slive, sdb, srdb):    *)
 (* it must stay exactly what the collection was when it was copied.        *)
+(* The harness also retains the object a SHARING derivation was taken from  *)
+(* (e.sact = "retain": the object the call was made on becomes the watched  *)
+(* source; "same": the watched object stays; which object it watches is the *)
+(* harness' choice, what that object must show is decided here):            *)
+(*   reverse()  -- a view on the same two dictionaries (link "rev"; the     *)
+(*     view of a view: "same"): after every in-place change made through    *)
+(*     the current object the source must be exactly the reverse (the same) *)
+(*     collection -- whatever the sizes of the indexes (also EMPTY ones);   *)
+(*     read()/qread() on the view bind new dictionaries (link gone);        *)
+(*   choose_* / filter_* -- new dictionaries, shared set objects: the       *)
+(*     source stays what it was unless an insert may reach a shared set     *)
+(*     (insert naming an existing key of the tag index): from then on what  *)
+(*     the source shows is unspecified (src.unspec; today it loses the      *)
+(*     inverse, the docstrings say "sharing").                              *)
+(* op = "back": the history continues on the watched source, the former     *)
+(* current object becomes the watched one (edit the original again after    *)
+(* its view was edited, inspect the view).                                  *)
 (* Branching: a derivation event with keep = TRUE observes the DERIVED      *)
 (* object in db / rdb while the object it was taken from stays the current  *)
 (* one (cdb / crdb: it must be unchanged); a later "read" / "qread" on the  *)
@@ -46,7 +63,9 @@ DevAllowed == IOEnv.DEV = "1"
 DevQAllowed == IOEnv.DEVQ = "1"
 FailOps    == {"read_fail", "qread_fail", "probe"}
 
-VARIABLES tid, l
+Chk(x) == x = TRUE          \* a pure check inside an action (TLC would branch on =>, \/)
+
+VARIABLES tid, l, unsp      \* unsp: what the watched source shows is unspecified from now on
 
 Tr == Traces[tid]
 
@@ -125,6 +144,26 @@ QueriesOK(e, pre) ==
    /\ NoDupKeys(e.ittp) /\ ObsFn(e.ittp) = pre.rdb
 
 CopyOps == {"copy", "reverse_copy", "pickle", "dumpread", "dumprevread"}
+ShareOps == {"choose", "choose_copy", "filter_p", "filter_pt", "filter_t"}      \* share set objects with their source
+CopyFormOps == {"filter_p_copy", "filter_pt_copy", "filter_t_copy"}             \* "with a copy of the tagsets": independent
+\* (choose_packages_copy is documented as copying but stores self.db[pkg] itself: treated as sharing)
+
+\* ---- the watched source: src = [live, age, db, rdb, kind, link, sd, sr]; unsp = what it shows is unspecified
+TSrcNew(pre, kind, link) == [NoSrc EXCEPT !.live = TRUE, !.db = pre.db, !.rdb = pre.rdb, !.kind = kind, !.link = link,
+                                         !.sd = link # "none", !.sr = link # "none"]
+TMirror(s, obs) == IF s.link = "rev" THEN [s EXCEPT !.db = obs.rdb, !.rdb = obs.db]
+                   ELSE IF s.link = "same" THEN [s EXCEPT !.db = obs.db, !.rdb = obs.rdb] ELSE s
+\* the watched source s after event e took the current object from pre to obs (same watched object)
+TEvolve(s, e, pre, obs) ==
+   IF e.op \in {"q", "qs"} \/ e.keep THEN <<s, FALSE>>
+   ELSE IF e.op = "insert" /\ e.exc = "" THEN
+           IF s.link # "none" THEN <<TMirror(s, obs), FALSE>>
+           ELSE <<s, s.kind = "share" /\ ToSet(e.s) \cap DOMAIN pre.rdb # {}>>
+   ELSE IF e.exc # "" \/ e.op \in FailOps THEN           \* the call raised: the same object is still the current one
+           IF obs = pre THEN <<s, FALSE>> ELSE <<Unlinked(s), s.link # "none">>
+   ELSE IF e.op \in {"read", "qread"} THEN <<Unlinked(s), FALSE>>      \* new dictionaries are bound
+   ELSE IF e.op = "reverse" THEN <<[s EXCEPT !.link = FlipLink(s.link)], FALSE>>
+   ELSE <<[Unlinked(s) EXCEPT !.kind = IF s.link # "none" THEN "share" ELSE s.kind], FALSE>>     \* any other derivation: a new object
 KeepOps == CopyOps \cup RestrictPOps \cup {"reverse", "filter_t", "filter_t_copy", "facet"}
 
 \* a failing call: the exception propagates, the object stays consistent
@@ -146,13 +185,15 @@ TInit == /\ tid \in 1..Len(Traces)
          /\ l = 1
          /\ P = {} /\ T = {} /\ R = {} /\ db = NoDict /\ rdb = NoDict
          /\ sabs = AEmpty /\ src = NoSrc /\ al = NoAlias(IEmpty) /\ rv = NoView /\ ab = NoBound
+         /\ unsp = FALSE
 
 TStep == /\ l <= Len(Tr.events)
          /\ LET e   == Tr.events[l]
                 pre == Impl
                 obs == [db |-> ObsFn(e.db), rdb |-> ObsFn(e.rdb)]
             IN /\ NoDupKeys(e.db) /\ NoDupKeys(e.rdb)
-               /\ IF Unspecified(e, pre) THEN TRUE
+               /\ IF e.op = "back" THEN Chk(src.live /\ e.exc = "" /\ ~e.keep /\ (unsp \/ obs = [db |-> src.db, rdb |-> src.rdb]))
+                  ELSE IF Unspecified(e, pre) THEN TRUE
                   ELSE IF e.op \in FailOps THEN FailureOK(e, pre, obs)
                   ELSE /\ e.exc = ""                                     \* no call of the domain raises
                        /\ IF e.op = "q" THEN obs = pre /\ QueriesOK(e, pre)
@@ -167,20 +208,40 @@ TStep == /\ l <= Len(Tr.events)
                /\ e.keep => /\ e.op \in KeepOps /\ [db |-> ObsFn(e.cdb), rdb |-> ObsFn(e.crdb)] = pre
                             /\ (Unspecified(e, pre) \/ QueriesOK(e, obs))      \* the query methods of the derived object
                /\ LET cur2 == IF e.keep THEN pre ELSE obs IN SetImpl(cur2) /\ SetAbs(AbsOf(cur2))
-               \* the source of a copy is independent of the copy: nothing done later changes it
-               /\ src' = IF e.op \in CopyOps /\ e.exc = "" /\ ~e.keep
-                         THEN [live |-> TRUE, age |-> 0, db |-> pre.db, rdb |-> pre.rdb] ELSE src
-               /\ e.slive = src'.live
-               /\ src'.live => /\ NoDupKeys(e.sdb) /\ NoDupKeys(e.srdb)
-                               /\ ObsFn(e.sdb) = src'.db /\ ObsFn(e.srdb) = src'.rdb
+               \* the source of a copy is independent of the copy: nothing done later changes it;
+               \* the source of a view follows the view; the source of a set-sharing restriction stays
+               \* what it was until a shared set may have been reached
+               /\ LET retain == e.slive /\ e.sact = "retain"
+                       ev     == TEvolve(src, e, pre, obs)
+                       want   == IF e.op = "back" THEN [src EXCEPT !.db = pre.db, !.rdb = pre.rdb]
+                                 ELSE IF ~e.slive THEN NoSrc
+                                 ELSE IF retain THEN (IF e.op \in CopyOps \cup CopyFormOps THEN TSrcNew(pre, "copy", "none")
+                                                      ELSE IF e.op = "reverse" THEN TSrcNew(pre, "share", "rev")
+                                                      ELSE TSrcNew(pre, "share", "none"))
+                                 ELSE ev[1]
+                       un     == IF e.op = "back" THEN unsp
+                                 ELSE IF ~e.slive \/ retain THEN FALSE
+                                 ELSE unsp \/ ev[2]
+                       seen   == [want EXCEPT !.db = ObsFn(e.sdb), !.rdb = ObsFn(e.srdb)]
+                   IN /\ Chk(retain => (e.exc = "" /\ ~e.keep /\ e.op \in CopyOps \cup CopyFormOps \cup ShareOps \cup {"reverse"}))
+                      /\ Chk((e.slive /\ ~retain /\ e.op # "back") => src.live)
+                      /\ Chk(e.op = "back" => e.slive)
+                      /\ Chk(e.slive => (NoDupKeys(e.sdb) /\ NoDupKeys(e.srdb)))
+                      /\ Chk((e.slive /\ ~un) => (seen = want))
+                      \* directly against the reference relation: the original of a view is its reverse
+                      /\ Chk((e.slive /\ ~un /\ want.link # "none" /\ InverseOf(IF e.keep THEN pre ELSE obs)) =>
+                                LET c == AbsOf(IF e.keep THEN pre ELSE obs)
+                                IN InverseOf(seen) /\ AbsOf(seen) = (IF want.link = "rev" THEN AReverse(c) ELSE c))
+                      /\ src' = (IF e.slive THEN seen ELSE NoSrc)
+                      /\ unsp' = un
                /\ sabs' = AbsOf(src') /\ al' = al /\ rv' = rv /\ ab' = ab
                \* deviation marker, printed only for a step that is explained completely
-               /\ ((~Unspecified(e, pre) /\ e.op \notin (FailOps \cup {"q", "qs"}) /\ DevAllowed /\ obs # Nominal(e, pre))
+               /\ ((~Unspecified(e, pre) /\ e.op \notin (FailOps \cup {"q", "qs", "back"}) /\ DevAllowed /\ obs # Nominal(e, pre))
                       => PrintT(<<"AT", tid, l, 1>>))
                /\ (DevQStep(e, pre, obs) => PrintT(<<"AT", tid, l, 2>>))
          /\ l' = l + 1 /\ UNCHANGED tid
          /\ (Diag => PrintT(<<"AT", tid, l, 0>>))
          /\ (l' = Len(Tr.events) + 1 => PrintT(<<"ACCEPTED", tid>>))
 
-TSpec == TInit /\ [][TStep]_<<vars, tid, l>>
+TSpec == TInit /\ [][TStep]_<<vars, tid, l, unsp>>
 =============================================================================
